@@ -33,3 +33,27 @@ package http_api
 //@   loop 0
 //@     invariant[writer-untouched] w == old(w)
 //@     invariant[nothing-served-yet] r7CHServed == old(r7CHServed)
+
+// ---- the decorator constructors: each returns the function literal whose contract is stated in zz_contracts_r4resp_verif.go ------------------
+// (round 7) V1 / PlainText / Log / Log$1 allocate a closure and nothing else; WHICH literal they return is what ties a route registered with
+// `http_api.Decorate(h, log, http_api.V1)` to the verified response writers (V1$1: the handler's error code is the status line).
+//@ func V1(f APIHandler) APIHandler
+//@   props C10 C14 C15 C17 C18
+//@   ensures[the-v1-response-writer] fnname(result) == "github.com/nsqio/nsq/internal/http_api.V1$1"
+//@   modifies
+//@   nochan
+//@ func PlainText(f APIHandler) APIHandler
+//@   props C10 C14 C15 C17 C18
+//@   ensures[the-plain-text-response-writer] fnname(result) == "github.com/nsqio/nsq/internal/http_api.PlainText$1"
+//@   modifies
+//@   nochan
+//@ func Log(logf lg.AppLogFunc) Decorator
+//@   props C10 C14 C15 C17 C18
+//@   ensures[the-logging-decorator] fnname(result) == "github.com/nsqio/nsq/internal/http_api.Log$1"
+//@   modifies
+//@   nochan
+//@ func Log$1(f APIHandler) APIHandler
+//@   props C10 C14 C15 C17 C18
+//@   ensures[the-pass-through-logger] fnname(result) == "github.com/nsqio/nsq/internal/http_api.Log$1$1"
+//@   modifies
+//@   nochan
